@@ -1,5 +1,6 @@
 From Tramp Require Import Model.Base Model.Fee Model.Classify Model.Node Model.Provider Model.ProviderSys Model.Sys.
 From Tramp Require Import Proofs.SysBasics Proofs.SysShape Proofs.SysTheorems Proofs.SysTimers Proofs.SysReach Proofs.SysCalls Proofs.SysNode Proofs.SysSafety Proofs.SysLive Proofs.SysTerm Proofs.SysAccount Props.C06.
+From Coq Require Import Permutation.
 Check C06_held_or_answered : forall c s h,
   (exists en, entry_ (pl (fst (step c s (EvHtlc h)))) = Some en /\ In h (listeners en)) \/
   (exists r, In (OResp (hid h) r) (snd (step c s (EvHtlc h)))).
@@ -50,6 +51,14 @@ Check C06_no_htlc_is_silently_dropped : forall c evs s h,
   In h (lis (entry_ (pl (fst (run c s evs))))) \/ answered_in (hid h) (snd (run c s evs)) \/ In EvCrash evs.
 Check (eq_refl : answered_in = fun x os => exists o r, In o os /\ In (OResp x r) o).
 Check (eq_refl : lis = fun e => match e with Some en => listeners en | None => [] end).
+Check C06_exactly_once_ledger : forall c evs s, ~ In EvCrash evs ->
+  Permutation (run_resp_ids (snd (run c s evs)) ++ held_ids (fst (run c s evs))) (arrivals evs ++ held_ids s).
+Check C06_nobody_is_answered_twice : forall c evs s,
+  ~ In EvCrash evs -> NoDup (arrivals evs ++ held_ids s) -> NoDup (run_resp_ids (snd (run c s evs))).
+Check (eq_refl : run_resp_ids = fun os => flat_map (fun o => flat_map (fun x => match x with OResp u _ => [u] | _ => [] end) o) os).
+Check (eq_refl : held_ids = fun s => map hid (lis (entry_ (pl s)))).
+Check (eq_refl : arrivals = fix arrivals (evs : list event) : list N :=
+  match evs with [] => [] | EvHtlc h :: r => hid h :: arrivals r | _ :: r => arrivals r end).
 Print Assumptions C06_every_held_htlc_is_answered.
 Print Assumptions C06_held_or_answered.
 Print Assumptions C06_poll_held_or_answered.
@@ -61,3 +70,5 @@ Print Assumptions C06_no_internal_divergence.
 Print Assumptions C06_progress_runs_are_bounded.
 Print Assumptions C06_at_rest_means_all_answered.
 Print Assumptions C06_no_htlc_is_silently_dropped.
+Print Assumptions C06_exactly_once_ledger.
+Print Assumptions C06_nobody_is_answered_twice.
